@@ -147,6 +147,9 @@ class Session(object):
                 self.done = 'ConnectionLost'
             except BaseException as e:  # noqa
                 self.done = 'exc:' + type(e).__name__
+            finally:
+                self.done_at = int(CLOCK.now)
+        self.done_at = None
         self.g = gevent.spawn(run)
 
     def aid(self, addr):
@@ -165,6 +168,9 @@ class Session(object):
 
     def collect(self):
         out = self.sock.out[self.seen:]
+        while out.startswith(b'\r\n'):       # asynchronous replies (time-outs) are preceded by an empty line
+            out = out[2:]
+            self.seen += 2
         pos = 0
         lines = []
         for m in REPLY_LINE.finditer(out):
@@ -182,7 +188,7 @@ class Session(object):
         if self.done and not getattr(self, '_closed_logged', False):
             self._closed_logged = True
             junk = len(self.sock.out) - self.seen
-            self.ev.append({'t': 'closed', 'how': self.done, 'junk': junk, 'now': int(CLOCK.now)})
+            self.ev.append({'t': 'closed', 'how': self.done, 'junk': junk, 'now': self.done_at if self.done_at is not None else int(CLOCK.now)})
 
     def send(self, data, **meta):
         e = {'t': 'cmd', 'now': int(CLOCK.now)}
@@ -197,10 +203,15 @@ class Session(object):
 
     def advance(self):
         if CLOCK.fire_next():
-            self.ev.append({'t': 'advance', 'now': int(CLOCK.now)})
             self.settle()
+            self.ev.append({'t': 'advance', 'now': int(CLOCK.now)})
             return True
         return False
+
+    def advance_to(self, t):
+        CLOCK.advance_to(float(t), vt.settle)
+        self.settle()
+        self.ev.append({'t': 'advance', 'now': int(CLOCK.now)})
 
     def finish(self):
         if not self.done:
